@@ -4,7 +4,7 @@
  *   urlenc run <cfgspec> <sep|d> <dec|d> <chunks>          htp_urlenp_create / parse_partial* / finalize
  *   urlenc tx  <cfgspec> <query hex|N> <chunks|N>          through htp_ch_urlencoded_callback_* into tx->request_params
  * cfgspec = handling,plusspace,u_decode,nul_enc_term,nul_raw_term,u_unwanted,inv_unwanted,nul_enc_unwanted,nul_raw_unwanted,replacement
- * chunks  = comma separated hex strings ("-" = empty chunk), "." = no chunk at all
+ * chunks  = comma separated hex strings ("-" = empty chunk), "." = no chunk at all; in `run`, "F" = htp_urlenp_finalize here
  * Every input byte string is copied into an exact-size heap block. */
 static void do_urlenc(char **f, int nf);
 static int drv_urlenc(char **f, int nf) { if (strcmp(f[0], "urlenc") != 0) return 0; do_urlenc(f, nf); return 1; }
@@ -25,11 +25,12 @@ static void ue_apply_cfg(htp_cfg_t *cfg, enum htp_decoder_ctx_t ctx, const char 
 }
 
 /* feed the chunks of a "h1,h2,..." field, each from its own exact-size block; fn(arg, data, len) */
-static void ue_each_chunk(const char *field, void (*fn)(void *, unsigned char *, size_t), void *arg) {
+static void ue_each_chunk(const char *field, void (*fn)(void *, unsigned char *, size_t), void (*fin)(void *), void *arg) {
     if (strcmp(field, ".") == 0) return;
     char *copy = strdup(field);
     char *save = NULL;
     for (char *h = strtok_r(copy, ",", &save); h; h = strtok_r(NULL, ",", &save)) {
+        if (strcmp(h, "F") == 0) { if (fin) fin(arg); continue; }
         size_t l; unsigned char *b = unhex_exact(h, &l);
         fn(arg, b, l);
         free(b);
@@ -39,6 +40,9 @@ static void ue_each_chunk(const char *field, void (*fn)(void *, unsigned char *,
 
 static void ue_feed_parser(void *arg, unsigned char *b, size_t l) {
     htp_urlenp_parse_partial((htp_urlenp_t *) arg, b, l);
+}
+static void ue_finalize_parser(void *arg) {
+    htp_urlenp_finalize((htp_urlenp_t *) arg);
 }
 
 static void ue_feed_body(void *arg, unsigned char *b, size_t l) {
@@ -79,7 +83,7 @@ static void do_urlenc(char **f, int nf) {
             htp_urlenp_t *urlenp = htp_urlenp_create(tx);
             if (strcmp(f[3], "d") != 0) urlenp->argument_separator = (unsigned char) atoi(f[3]);
             if (strcmp(f[4], "d") != 0) urlenp->decode_url_encoding = atoi(f[4]);
-            ue_each_chunk(f[5], ue_feed_parser, urlenp);
+            ue_each_chunk(f[5], ue_feed_parser, ue_finalize_parser, urlenp);
             htp_urlenp_finalize(urlenp);
             size_t n = htp_table_size(urlenp->params);
             if (n == 0) printf("none");
@@ -104,7 +108,7 @@ static void do_urlenc(char **f, int nf) {
                 tx->request_content_type = bstr_dup_c(HTP_URLENCODED_MIME_TYPE);
                 htp_status_t r2 = htp_ch_urlencoded_callback_request_headers(tx);
                 printf(" h%d", (int) r2);
-                ue_each_chunk(f[4], ue_feed_body, tx);
+                ue_each_chunk(f[4], ue_feed_body, NULL, tx);
                 htp_tx_data_t d;
                 d.tx = tx; d.data = NULL; d.len = 0; d.is_last = 1;
                 htp_status_t r3 = htp_hook_run_all(tx->hook_request_body_data, &d);
